@@ -37,6 +37,7 @@ TRUSTED = c01.TRUSTED + [
     "covers the raising path of composites",
 ]
 ASSUMPTIONS = c01.ASSUMPTIONS
+CASE_TIMEOUT = 30
 
 STATS_VARIANT = c01.STATS_VARIANT
 
@@ -304,6 +305,8 @@ def nontrivial(case, impl):
 
 
 def model_input(case, impl):
+    if "r" not in impl:  # the run ended in a harness error (reported as such by the engine)
+        return ["n 0", "run"]
     if case["kind"] == "nest":
         return _nest_model_input(case, impl["r"])
     if case["kind"] != "dag" or case.get("prerun") or case.get("force_starters"):
@@ -698,30 +701,39 @@ def _run_nest(case):
             exc = e
         finally:
             comp.Composite._on_run = orig_on_run
-    for p in composites:
-        if p not in wiring:  # a macro that never ran: its wiring is static
-            wiring[p] = observe(nodes[p])
-    calls = list(N.CALL_LOG)
-    r = {
-        "outcome": outcome,
-        "chain": _chain_tokens(exc, N, gid_path),
-        "chain_types": c06_chain(exc),
-        "raised_is_orig": {_pstr(gid_path[g]): any(e is x for x in _chain_objs(exc)) for g, e in N.RAISED.items()},
-        "raised_types": {_pstr(gid_path[g]): type(e).__name__ for g, e in N.RAISED.items()},
-        "trace": list(sched.trace), "spurious_sleeps": sched.spurious,
-        "wiring": {_pstr(p): w for p, w in wiring.items()},
-        "flags": {_pstr(p): (bool(n.running), bool(n.failed)) for p, n in nodes.items()},
-        "running_children": {_pstr(p): [int(l[1:]) for l in getattr(nodes[p], "running_children", [])] for p in composites},
-        "exec_log": {_pstr(p): [int(l[1:]) for l in getattr(nodes[p], "provenance_by_execution", [])] for p in composites},
-        "done_log": {_pstr(p): [int(l[1:]) for l in getattr(nodes[p], "provenance_by_completion", [])] for p in composites},
-        "outs": {_pstr(p): term_str(nodes[p].outputs.o.value) for p in leaf_gid},
-        "before": None if before is None else {_pstr(p): v for p, v in before.items()},
-        "calls": {_pstr(p): calls.count(g) for p, g in leaf_gid.items()},
-        "late_jobs": [sched.ident(j[0]) for j in sched.jobs],
-    }
-    # what the outstanding jobs do when they complete after the run has returned
-    n_late = sched.drain() if sched.jobs else 0
-    r["calls_after_late"] = {_pstr(p): N.CALL_LOG.count(g) for p, g in leaf_gid.items()} if n_late else None
+        for p in composites:
+            if p not in wiring:  # a macro that never ran: its wiring is static
+                wiring[p] = observe(nodes[p])
+        calls = list(N.CALL_LOG)
+        # the state at the moment the run has returned to its caller
+        r = {
+            "outcome": outcome,
+            "chain": _chain_tokens(exc, N, gid_path),
+            "chain_types": c06_chain(exc),
+            "raised_is_orig": {_pstr(gid_path[g]): any(e is x for x in _chain_objs(exc)) for g, e in N.RAISED.items()},
+            "raised_types": {_pstr(gid_path[g]): type(e).__name__ for g, e in N.RAISED.items()},
+            "trace": list(sched.trace), "spurious_sleeps": sched.spurious,
+            "wiring": {_pstr(p): w for p, w in wiring.items()},
+            "flags": {_pstr(p): (bool(n.running), bool(n.failed)) for p, n in nodes.items()},
+            "running_children": {_pstr(p): [int(l[1:]) for l in getattr(nodes[p], "running_children", [])]
+                                 for p in composites},
+            "exec_log": {_pstr(p): [int(l[1:]) for l in getattr(nodes[p], "provenance_by_execution", [])]
+                         for p in composites},
+            "done_log": {_pstr(p): [int(l[1:]) for l in getattr(nodes[p], "provenance_by_completion", [])]
+                         for p in composites},
+            "outs": {_pstr(p): term_str(nodes[p].outputs.o.value) for p in leaf_gid},
+            "before": None if before is None else {_pstr(p): v for p, v in before.items()},
+            "calls": {_pstr(p): calls.count(g) for p, g in leaf_gid.items()},
+            "late_jobs": [sched.ident(j[0]) for j in sched.jobs],
+        }
+        # what the outstanding jobs do when they complete after the run has returned (still under the scheduler:
+        # a macro's late job runs its loop)
+        n_late = 0
+        try:
+            n_late = sched.drain() if sched.jobs else 0
+        except BaseException:  # noqa: BLE001
+            n_late = -1
+        r["calls_after_late"] = {_pstr(p): N.CALL_LOG.count(g) for p, g in leaf_gid.items()} if n_late else None
     return r
 
 
